@@ -1,6 +1,10 @@
-NOTES = ("All checks: ./check <ID> quick|thorough builds the harness against /repo's working tree (build failure => exit 2), "
-         "runs replay/regression cases, then generated search against an explicit oracle. Exit 0 held, 1 VIOLATION, 2 cannot decide. "
-         "Genuine defects found and repaired are listed in known-findings.txt as 'fixed:' lines (three fix: commits in /repo).")
+NOTES = ("All checks: ./check <ID> quick|thorough builds the harness against /repo's working tree in two build profiles "
+         "(checked = overflow checks + debug assertions, unchecked = neither; build failure => exit 2), replays regress/<ID>/, "
+         "then runs generated search against an explicit oracle in the checked profile and re-executes itself in the unchecked "
+         "profile with a lighter budget (full budget for C05). Exit 0 held, 1 VIOLATION (replay file printed), 2 cannot decide "
+         "(build failure, oracle self-check failure, watchdog, non-reproducible mismatch). All randomness is a pure function of "
+         "VERIF_SEED. Genuine defects found and repaired are listed in known-findings.txt as 'fixed:' lines (three fix: commits "
+         "in /repo); no known finding is open. DESIGN.md section 11 records which checks catch which seeded changes.")
 NOT_YET = {}
 
 add("C01",
@@ -9,7 +13,7 @@ add("C01",
     "Trusted: the reference model (harness/src/model/poker.rs), self-checked at start-up against the published 7462 classes, per-category class counts and five-card frequencies; that the model's 52 words are the crate's cards (C10).")
 
 add("C02",
-    "exhaustive enumeration of all 6-card (and, thorough, all 7-card) subsets against two independent rule-based models; seeded slot orders; proptest-chosen hands under every slot order",
+    "exhaustive enumeration of all 6-card (and, thorough, all 7-card) subsets in ascending, descending and seeded slot orders against two independent rule-based models; proptest-chosen hands under every slot order; proptest call sequences over neighbour hands (purity)",
     "Every six-card subset and (quick: a seeded 1-in-8 stratum of / thorough: every one of the 133,784,560) seven-card subsets is ranked through all five entry points and must equal the minimum ordinal over all five-subsets computed by the model, which must itself equal a direct rule-based n-card evaluation; seeded slot orders per hand and random hands under all 720/5040 orders attack order dependence. Closing the hand quantifier by enumeration is feasible; the order quantifier (N! per hand) is sampled.",
     "Trusted: model (two forms cross-checked on every hand; best-hand category frequencies compared with the published 6-/7-card counts whenever the enumeration is complete). Slot orders beyond canonical are sampled.")
 add("C03",
@@ -17,7 +21,7 @@ add("C03",
     "The reported hand is checked with a validity predicate (five slots, all from the input, distinct, strictly descending, ranks to the reported value by the crate and by the model) rather than one expected answer, because ties admit several correct witnesses; for five-card inputs the witness must be the input unchanged in every one of the 120 orders.",
     "Trusted: model ordinal for the witness; no claim about which of several equally ranked witnesses is chosen.")
 add("C04",
-    "exhaustive 2^32 scan of the per-slot recogniser + structured/exhaustive near-miss placement + proptest hands with shrinking; libFuzzer target (thorough)",
+    "exhaustive 2^32 scan of the per-slot recogniser + structured/exhaustive near-miss placement (random and boundary-value base hands) + exhaustive valid-hand sweep + sharded proptest hands with shrinking; libFuzzer target (thorough)",
     "The per-slot factor of the domain (every u32) is enumerated; whole hands are an open domain and are explored with structure: every near-miss word (Hamming distance <= 2 of a card, fragments, flags) in every slot of every size, every duplicated slot pair, all arrangements over a small alphabet, 400k (thorough 5M) weighted proptest hands, and a coverage-guided campaign. Oracle: valid <=> every slot a model card and no two equal.",
     "Trusted: model card recogniser (layout formula); whole-hand space is sampled, not closed.")
 add("C05",
@@ -25,7 +29,7 @@ add("C05",
     "Totality over the stated alphabet is closed by enumeration in both semantics-relevant build profiles (overflow checks + debug assertions on / off); a five-slot hand with a blank must give 0 and Invalid through every entry point; hands of distinct cards must additionally equal the model.",
     "Trusted: opt-level 0 equivalent to the two opt-level-3 profiles; non-termination is only detectable as a watchdog timeout (exit 2).")
 add("C06",
-    "exhaustive: all 65,536 values and all enum variants against model-derived class text; all 5/6-card (7-card stratum/all) hands through hand_rank",
+    "exhaustive: all 65,536 values and all enum variants against model-derived class text; all 5-card hands in all 120 slot orders and all 6-card (7-card stratum/all) hands through hand_rank / hand_rank_validated",
     "Every value is converted and its category/class text compared with the text the model builds from the ranks of the poker class with that ordinal; every non-Invalid variant must label one contiguous non-empty range; for every hand the reported rank must equal the conversion of the model's ordinal (so the text describes the actual cards).",
     "Trusted: model class naming (documented spellings Trey/Deuce); variants compared by Debug text.")
 add("C07",
@@ -49,9 +53,9 @@ add("C11",
     "Sorting is checked in both directions (non-increasing and same multiset) plus idempotence, in-place agreement and non-mutation of the receiver.",
     "Trusted: std sort as the reference arrangement. Arbitrary arrays sampled.")
 add("C12",
-    "exhaustive symbol tables over all Unicode scalar values and token alphabet; proptest texts and arbitrary strings with shrinking; libFuzzer target (thorough)",
+    "exhaustive symbol tables and one-sided two-character tokens over all Unicode scalar values, token alphabet squared; sharded proptest texts and arbitrary strings with shrinking under a probed whitespace definition; libFuzzer target (thorough)",
     "Symbol tables closed over every char; first-two-characters rule over an adversarial alphabet squared x tails; hand parsers on generated texts with k<N / k=N tokens; totality on arbitrary strings.",
-    "Trusted: model tokenisation on the five common separators; texts with other whitespace or more tokens than slots only checked for totality.")
+    "Trusted: whitespace is one of the two standard definitions (probed on the two-card parser, then required uniformly); texts with more tokens than slots only checked for totality.")
 add("C13",
     "exhaustive: all five-card hands (canonical + seeded orders) against predicates computed from card fields, and against the rank category",
     "All 2,598,960 hands; includes the 58,824 paired hands whose ranks span five places.",
@@ -77,7 +81,7 @@ add("C18",
     "Every table entry against the full combination set (both directions); all index classes for deck access.",
     "Trusted: combination generator.")
 add("C19",
-    "model-based stateful proptest (constructor/setter/selection histories vs an array model) + exhaustive setters and selection tuples; libFuzzer target (thorough)",
+    "model-based stateful proptest (constructor/setter/state-dependent rewrite/selection histories vs an array model) + exhaustive setters, rewrite sequences and selection tuples; libFuzzer target (thorough)",
     "Every setter, constructor and in-range selection tuple enumerated; histories with arbitrary words sampled with a full read-back after every step.",
     "Trusted: array model.")
 add("C20",
